@@ -18,7 +18,7 @@ Extraction "c14_model.ml"
   c14_is_unique c14_is_strided c14_is_always_unique c14_is_always_exhaustive c14_is_always_strided
   c14_map_right_w c14_map_left_w c14_map_stride_w
   c14_subspan_extent c14_span_elems c14_span_size_bytes c14_wrap c14_mdspan_of_extents c14_view_convert
-  c14_mdarray_fill c14_mdarray_of_container c14_mdarray_convert c14_to_mdspan c14_array_set c14_array_eqb c14_mapping_eqb_cross c14_bump
+  c14_mdarray_fill c14_mdarray_of_container c14_mdarray_convert c14_to_mdspan c14_array_set c14_array_eqb c14_mapping_eqb_cross c14_mapping_eqb_cross_w c14_bump
   c14_span_first c14_span_last c14_span_subspan c14_span_at c14_span_index c14_span_front c14_span_back
   c14_prod c14_dot c14_spec_strides_right c14_spec_strides_left c14_spec_right c14_spec_left c14_spec_fill
   c14_unrank_right c14_unrank_left.
